@@ -46,6 +46,13 @@ class Check:
     thorough_examples = 10000
     scale = 1.0
 
+    # coverage-guided campaigns: (number of campaigns, executions each)
+    fuzz = {'quick': (2, 800), 'thorough': (16, 20000)}
+
+    def fuzz_budget(self, tier):
+        n, runs = self.fuzz.get(tier, (0, 0))
+        return n, max(100, int(runs * min(1.0, self.scale * 4)))
+
     def examples(self, tier):
         n = self.quick_examples if tier == 'quick' else self.thorough_examples
         return int(n * self.scale)
